@@ -110,6 +110,14 @@ THEOREMS = {
     "C19_resume_refuted_marker_before_advanced": "REFUTED without marker_last in RETROSPECTIVE mode: marker published before advanced_screen.h5, interruption between the two -> step (1,0) is started from the "
                                                  "training screen of (0,0) instead of its advanced screen and selects plate 0 a second time",
     "C19_marker_before_advanced_strands": "the same inside a batch (batch size 2, plate 1): no screen is found, TypeError that names nothing; for every number of reruns no further step is completed",
+    "C19_nf_outputs_are_what_the_script_globs": "read from /repo/nextflow/modules/*/main.nf on every run: every file kind of the model is published by the process the model attributes it to, the module's "
+                                                "output: pattern matches the file name its script: block writes, and the pattern the orchestration script globs for matches that name",
+    "C19_nf_written_names_unambiguous": "a file name a module writes is matched by the script's glob of exactly one kind",
+    "C19_script_globs_are_kind_patterns": "the glob primitives of the translated helpers (the patterns the translation matches against the script's text) are exactly the model's pattern per kind at "
+                                          "the model's directory depth (<job>/*/<file>; selected_plate: <iteration>/plate_*/*/<file>), and every kind is globbed for",
+    "C19_nf_publish_dir_is_outdir": "every nextflow/config/*.config that sets publishDir sets it to ${params.outdir} (the --outdir of the script's command line) and every module writes under ${meta.id}: one directory level below the job directory",
+    "C19_nf_excludes_chain": "how --excludes=a,b reaches the policy (C16's batch): next_batch_plate splits params.excludes on the separator the script joins with; it is the tuple element the sub-workflow picks "
+                             "for SELECT_NEXT_PLATE's `excludes` input; the module passes the ids blank-separated after --batch-plate-id, which select_next_plate's own option table declares nargs='+' type=int dest batch_plate_id",
     "C19_model_is_source_examine": "the WHOLE function examine_output_dir_to_determine_current_iteration of /repo's script, re-translated into Gallina on every run, equals the model's examine with "
                                    "fixed = true for every tree and batch size: both filtered + numerically sorted globs, the `continue` on an iteration directory without plate directories, current_plate_idx = 0, "
                                    "the enumerate loop with its two raises and the directory each names, the leaked plate_dir, the next-step arithmetic, both returns",
@@ -202,7 +210,12 @@ ASSUMPTIONS = [
     "retrospective: always the same file.  The screens' content is abstract in the model (all list the same plates); the harness's files differ in path and in a field the fake ignores",
     "an invocation ends when run_next_* returns False, raises, or is interrupted; what the process exit status is used for by the operator is not modelled beyond 'rerun'",
 ]
-EXPLANATION = ("TORN MARKERS: Model/Orchestrate.v (last section) extends the tree by the set of directories whose screen_metadata.json exists but cannot be read, examine_t raises there (tfix=0, the script today) "
+EXPLANATION = ("NEXTFLOW SIDE (C19_nf_*, C19_script_globs_*): harness/nf_reader.py, a fail-closed reader of the declarative parts of the six modules whose outputs the script globs for (process name, "
+               "the prefix line, each output: line, the --output options of the script: block), of publishDir in nextflow/config/*.config and of the excludes chain (tokenize in next_batch_plate, the it[k] picks "
+               "of select_next_batch_plate, input tuple and exclude_flag of select_next_plate), writes Generated/SrcNfOutputs.v on every run; anything outside the accepted shapes is refused (broken obligation).  "
+               "TRUSTED: that reader, fnmatch-style matching with * (Model/NfFiles.glob_match), and that `meta.id` is one path component.  NOT read: which processes each workflow includes (the model's `expected`), "
+               "the nf-core publishDir mode (copy / symlink), nextflow's own semantics.  The fake nextflow publishes under the names the reader finds in the tree under test.  "
+               "TORN MARKERS: Model/Orchestrate.v (last section) extends the tree by the set of directories whose screen_metadata.json exists but cannot be read, examine_t raises there (tfix=0, the script today) "
                "or treats it as missing (tfix=1, the repair); C19_torn_model_conservative ties it to the model of all other theorems; C19_resume_refuted_torn_marker is the finding, replayed on the real script "
                "(known finding torn-marker-strands-script).  Model: Model/Orchestrate.v (calls: attempt/script_run; invocations of main(): call_returns/invocation/op_screen/script_session).  "
                "The invocation-level theorems (C19_invocation_*, C19_retro_*, C19_uninterrupted_*) say when main() stops and which operator screen every launch reads; the harness "
@@ -283,6 +296,23 @@ CANON = [0, 1, 2, 3, 4, 5, 6]
 FULL = 99
 NAME = "exp"
 MODES = ["retrospective", "prospective"]
+
+
+_nf_names = None
+
+
+def nf_names():
+    """{kind: file name the nextflow modules of the tree under test write}, read by harness/nf_reader.py from the modules' output: /
+    script: blocks; the fake publishes under THESE names, so a renamed module output shows up as a script that finds nothing.
+    A tree the reader refuses (the theorems about it are then broken obligations): the names as they were read into the harness."""
+    global _nf_names
+    if _nf_names is None:
+        try:
+            import nf_reader
+            _nf_names = nf_reader.published_names(common.REPO)[0]
+        except Exception:      # noqa: BLE001
+            _nf_names = {}
+    return _nf_names
 
 
 class Crash(BaseException):
@@ -628,7 +658,7 @@ class Runner:
         self.events.append(ev)
         env = {"FAKE_NF_LOG": self.fakelog, "FAKE_NF_ORDER": ",".join(KINDS[k] for k in self.cur_order),
                "FAKE_NF_CRASH_AFTER": str(p), "FAKE_NF_PYTHON": sys.executable,
-               "FAKE_NF_TORN": "1" if self.cur_torn else ""}
+               "FAKE_NF_TORN": "1" if self.cur_torn else "", "FAKE_NF_FILES": json.dumps(nf_names())}
         rc = None
         try:
             if self.spawn:
